@@ -282,10 +282,15 @@ def units_for(prop):
 
 
 def load_known():
-    p = os.path.join(VERIF, "known_findings.json")
-    if not os.path.exists(p):
-        return {"findings": [], "fixed": []}
-    return json.load(open(p))
+    """known findings: committed files findings/*.json ({"findings": [...], "fixed": [...]}); never written at run time"""
+    out = {"findings": [], "fixed": []}
+    fd = os.path.join(VERIF, "findings")
+    for fn in sorted(os.listdir(fd)) if os.path.isdir(fd) else []:
+        if fn.endswith(".json"):
+            d = json.load(open(os.path.join(fd, fn)))
+            out["findings"] += d.get("findings", [])
+            out["fixed"] += d.get("fixed", [])
+    return out
 
 
 def write_replay(prop, ob, ur):
